@@ -8,7 +8,7 @@
 //	                                  projection of BOTH twins after every call (V)
 //
 // Configuration matrix (rotated per behaviour): {hash, path} scheme x {snapshot tree on, off}
-// x {trie prefetcher on, off}.  At every Commit: the returned root must equal the
+// x {trie prefetcher on, off} x {plain reader, cache-sharing readers of block processing}.  At every Commit: the returned root must equal the
 // IntermediateRoot of a copy taken just before and the StackTrie root of the model world,
 // and the state at that root is read through the account/storage tries, the flat reader
 // (pathdb / snapshot tree), the code database and the iterators and compared with the world.
@@ -39,14 +39,15 @@ type cfg struct {
 	scheme   string
 	snap     bool
 	prefetch bool
+	cached   bool
 }
 
 func cfgFor(i int) cfg {
-	return cfg{scheme: []string{"hash", "path"}[i%2], snap: (i/2)%2 == 1, prefetch: (i/4)%2 == 1}
+	return cfg{scheme: []string{"hash", "path"}[i%2], snap: (i/2)%2 == 1, prefetch: (i/4)%2 == 1, cached: (i/8)%2 == 1}
 }
 
 func (c cfg) String() string {
-	return fmt.Sprintf("%s/snap=%v/prefetch=%v", c.scheme, c.snap, c.prefetch)
+	return fmt.Sprintf("%s/snap=%v/prefetch=%v/cachedreader=%v", c.scheme, c.snap, c.prefetch, c.cached)
 }
 
 // world is the twin system under test.
@@ -64,6 +65,7 @@ func worldKey(w sk.World) string { return fmt.Sprint(w) }
 
 func newSystem(u *sk.Universe, c cfg, rules string, w sk.World) (*system, error) {
 	s := &system{u: u, c: c, env: sk.NewEnv(c.scheme, c.snap), roots: map[string]common.Hash{}, sent: map[common.Hash]uint64{}}
+	s.env.CachedReader = c.cached
 	m, err := sk.NewMachine(u, s.env, rules, w)
 	if err != nil {
 		return nil, err
@@ -240,7 +242,7 @@ func runRecord(path string, seed int64, ntraces, steps, na, ns int, sum *tl.Summ
 	shapes := map[string]bool{}
 	for t := 0; t < ntraces; t++ {
 		rules := sk.RuleNames[(t+int(seed))%4]
-		c := cfgFor(t/4 + int(seed))
+		c := cfgFor(t/2 + int(seed))
 		g := sk.DefaultGen()
 		g.Aux, g.Reads = false, false
 		w := u.RandomWorld(r, g.MaxCode)
